@@ -11,6 +11,7 @@ import os
 import re
 
 import rsx
+import r7fmt
 from rsx import AnchorLost
 
 VERIF = os.path.dirname(os.path.dirname(os.path.abspath(__file__)))
@@ -132,6 +133,9 @@ def rewrite_body(s):
     s = _replace_calls(s, r'core::panicking::(panic_display|panic_fmt|panic|assert_failed|panic_explicit)', rp)
     s = re.sub(r'let kind = core::panicking::AssertKind::\w+;', '', s)
     # `if true { ... }` produced by cfg!(debug_assertions)-guarded debug_assert!: keep as is.
+
+    # R7: format!/write!/to_string and the core::fmt types -> generated stubs / stand-ins (lib/r7fmt.py)
+    s = r7fmt.rewrite_fmt(s, _count)
 
     # R10: UFCS operator calls -> infix
     def ro(m, args):
